@@ -7,6 +7,7 @@ import (
 	"fmt"
 	"os"
 	"os/exec"
+	"strings"
 	"time"
 
 	"verif/codec"
@@ -27,6 +28,8 @@ func main() {
 		cmdReplay(os.Args[2:])
 	case "run":
 		cmdRun(os.Args[2:])
+	case "race":
+		cmdRace(os.Args[2:])
 	case "prebuild":
 		cmdPrebuild(os.Args[2:])
 	default:
@@ -132,6 +135,32 @@ func cmdReplay(args []string) {
 	if err := json.Unmarshal(b, &v); err != nil {
 		fmt.Fprintln(os.Stderr, err)
 		os.Exit(2)
+	}
+	if v.Property == "C16" && v.Universe != "race-pass" || strings.HasPrefix(v.Universe, "gc/") {
+		bin := os.Getenv("VERIF_BIN_SCHED")
+		if bin == "" {
+			fmt.Fprintln(os.Stderr, "replay of a schedule needs the instrumented build: use ./check replay")
+			os.Exit(2)
+		}
+		ch := ""
+		bound := "2"
+		for _, t := range v.Tags {
+			if strings.HasPrefix(t, "choices=") {
+				ch = strings.TrimPrefix(t, "choices=")
+			}
+			if strings.HasPrefix(t, "bound=") {
+				bound = strings.TrimPrefix(t, "bound=")
+			}
+		}
+		cmd := exec.Command(bin, "replay", "-prop", v.Property, "-tier", v.Tier, "-universe", v.Universe, "-choices", ch, "-bound", bound)
+		cmd.Stdout, cmd.Stderr = os.Stdout, os.Stderr
+		if err := cmd.Run(); err != nil {
+			if ee, ok := err.(*exec.ExitError); ok {
+				os.Exit(ee.ExitCode())
+			}
+			os.Exit(2)
+		}
+		os.Exit(0)
 	}
 	for _, t := range v.Tags {
 		if t == "crash" {
